@@ -18,7 +18,7 @@ RULE = ("random histories (length 15-60) over {build routine, marshal, unmarshal
         "biased toward distinct objects that compare/hash equal (both member orders of one union, equal instants with other offsets, "
         "1/1.0/True, equal text as str/bytes, Decimal('1.0')/('1.00')); every operation of the history is re-executed ALONE in a process "
         "forked from an import-only zygote and the canonical outcomes are compared; inside the history an aliasing registry watches for "
-        "containers handed out twice and for mutated inputs; one evaluation = one operation compared with its cold twin; distinct = "
+        "containers handed out twice and for mutated inputs; one evaluation = one operation compared with its cold twin; plus the repository's own test-suite under a repeat-the-call monitor (same call twice in a warm process gives the same outcome); distinct = "
         "(type source, op kind, canonical input)")
 ASSUMPTIONS = [
     "the zygote has imported typelib and the synthesised modules and made no call into the library; fork() gives every cold run that identical state",
@@ -26,9 +26,9 @@ ASSUMPTIONS = [
     "string references are issued from one fixed module per history, except in the dedicated two-module scenario (D27)",
 ]
 PLAN = {"quick": dict(histories=640, maxlen=50, pressure=False), "thorough": dict(histories=12000, maxlen=60, pressure=True)}
-FLOORS = {"quick": {"ops_compared_with_cold": 14000, "histories": 600, "equal_but_distinct_inputs": 3000, "result_mutations": 1000, "aliasing_checks": 20000,
+FLOORS = {"quick": {"suite_unmarshal_determinism_judged": 20, "suite_tests_passed": 1400, "ops_compared_with_cold": 14000, "histories": 600, "equal_but_distinct_inputs": 3000, "result_mutations": 1000, "aliasing_checks": 20000,
                     "union_twin_histories": 150, "two_module_string_ref_histories": 50},
-          "thorough": {"ops_compared_with_cold": 350000, "histories": 11000, "equal_but_distinct_inputs": 60000, "result_mutations": 25000,
+          "thorough": {"suite_unmarshal_determinism_judged": 20, "suite_tests_passed": 1400, "ops_compared_with_cold": 350000, "histories": 11000, "equal_but_distinct_inputs": 60000, "result_mutations": 25000,
                        "aliasing_checks": 300000, "union_twin_histories": 2500, "cache_pressure_ops": 100}}
 
 
@@ -469,3 +469,13 @@ def run_case(sh, i, plan):
 def run_shard(sh):
     plan = PLAN[sh.tier]
     sh.run_cases(per_shard(plan["histories"], sh.nshards, sh.shard), lambda i: run_case(sh, i, plan), timeout_s=400)
+
+    # second workload: the repository's own test-suite, watched by the spec-free monitors of vlib/suitemon.py (last, so that its
+    # cache state cannot shape the cases above); one shard runs it
+    if sh.shard == sh.nshards - 1:
+        from vlib import suitemon
+
+        suitemon.run_repo_suite(sh, ['determinism'])
+    else:
+        for k in ['suite_unmarshal_determinism_judged', 'suite_tests_passed']:
+            sh.count(k, 0)
